@@ -73,17 +73,18 @@ void tokens_reset(AsmContext *asm_context)
 static int tokens_hex_string_to_int(char *s, uint64_t *num, bool prefixed)
 {
   uint64_t n = 0;
+  int digits = 0;
 
   while (*s != 0 && (*s != 'h' && *s != 'H'))
   {
     if (*s >= '0' && *s <= '9')
-    { n = (n << 4) | ((*s) - '0'); }
+    { n = (n << 4) | ((*s) - '0'); digits++; }
       else
     if (*s >= 'a' && *s <= 'f')
-    { n = (n << 4) | ((*s) - 'a' + 10); }
+    { n = (n << 4) | ((*s) - 'a' + 10); digits++; }
       else
     if (*s >= 'A' && *s <= 'F')
-    { n = (n << 4) | ((*s) - 'A' + 10); }
+    { n = (n << 4) | ((*s) - 'A' + 10); digits++; }
       else
     if (*s != '_')
     { return -1; }
@@ -92,6 +93,10 @@ static int tokens_hex_string_to_int(char *s, uint64_t *num, bool prefixed)
   }
 
   if ((*s == 'h' || *s =='H') && prefixed == true) { return -1; }
+
+  // 0x alone is no number, neither is 1h2h (the h ends the number).
+  if (digits == 0) { return -1; }
+  if (*s != 0 && s[1] != 0) { return -1; }
 
   *num = n;
 
@@ -159,6 +164,9 @@ static int tokens_binary_string_to_int(char *s, uint64_t *num, bool prefixed)
   }
 
   if ((*s == 'b' || *s =='B') && prefixed == true) { return -1; }
+
+  // 1b0b is no number: the b ends it. (0b alone is the binary number 0.)
+  if (*s != 0 && s[1] != 0) { return -1; }
 
   *num = n;
 
